@@ -72,8 +72,12 @@ def _const_truth(e: ast.expr):
 
 class CFG:
     def __init__(self, func: ast.AST, may_raise: Callable[[Node], bool] = default_may_raise,
-                 body: list[ast.stmt] | None = None):
+                 body: list[ast.stmt] | None = None, loops_at_least_once: bool = False):
+        """loops_at_least_once: model every `for` as executing its body at least once (do-while).
+        Used for ordering rules between consecutive loops over the same collection, where the
+        zero-iteration path of one loop combined with a non-zero path of the next is infeasible."""
         self.func = func
+        self.loops_at_least_once = loops_at_least_once
         self.nodes: list[Node] = []
         self.may_raise = may_raise
         self.entry = self._new("entry")
@@ -167,6 +171,15 @@ class CFG:
         if isinstance(s, (ast.For, ast.AsyncFor)):
             it = self._simple("for-iter", s, [s.iter], preds, frames)
             h = self._simple("for-head", s, [s.target], [(it, "next")], frames)
+            if self.loops_at_least_once:
+                back = self._new("for-head", s, [s.target])
+                fr = {"type": "loop", "head": back, "breaks": []}
+                first = self._new("join", s)
+                self._connect([(h, "true"), (back, "true")], first)
+                body_out = self._block(s.body, [(first, "next")], frames + [fr])
+                self._connect(body_out, back)
+                outs = self._block(s.orelse, [(back, "false")], frames)
+                return outs + fr["breaks"]
             fr = {"type": "loop", "head": h, "breaks": []}
             body_out = self._block(s.body, [(h, "true")], frames + [fr])
             self._connect(body_out, h)
